@@ -36,7 +36,12 @@ func (r CharRecipe) n() *big.Int {
 	allowed.Add(r.allowedSet)
 	required := set.NewSet()
 	for _, req := range r.requiredSets {
-		required.Add(req.s)
+		// A required set that exclusion has emptied requires nothing (exclusion
+		// overrides Require, and the filter in Generate skips empty sets too).
+		// Counting it would make every password look like a miss.
+		if req.size() > 0 {
+			required.Add(req.s)
+		}
 	}
 
 	return n(allowed, required, r.Length)
